@@ -227,7 +227,51 @@ def k_not_reserved(ctx, content):
             ctx.fail("classify", "to_reserved_wrong", f"expected={'object' if want else 'None'}", case)
 
 
-KINDS = {"msg": k_msg, "not_reserved": k_not_reserved}
+def k_field_reuse(ctx, seed):
+    """Entity-id / sequence-number field objects that an application keeps and advances in place (field.value = n) between
+    messages: every originating-id and proxy-put-request message built from them carries the value they hold at that moment."""
+    import random
+    X = C.lib()
+    from spacepackets.cfdp import tlv as T
+    from spacepackets.cfdp.defs import TransactionId
+    r = random.Random(f"fieldreuse/{seed}")
+    case = {"k": "field_reuse", "seed": seed}
+    ctx.case("field_reuse", seed, sample=case)
+    a, b = r.choice(C.WIDTHS), r.choice(C.WIDTHS)
+    va, vb = rand_uint(r, 8 * a), rand_uint(r, 8 * b)
+    fa, fb = X.ByteFieldGenerator.from_int(a, va), X.ByteFieldGenerator.from_int(b, vb)
+    trail = []
+    for rnd in range(r.randrange(2, 6)):
+        if rnd:
+            for which in ("a", "b"):
+                if r.random() < 0.7:
+                    how = r.choice(("int", "bytes"))
+                    if which == "a":
+                        va = rand_uint(r, 8 * a)
+                        fa.value = va if how == "int" else va.to_bytes(a, "big")
+                    else:
+                        vb = rand_uint(r, 8 * b)
+                        fb.value = vb if how == "int" else vb.to_bytes(b, "big")
+                    trail.append(f"{which}.value={how}")
+        kind = r.choice(("originating_id", "put_request"))
+        if kind == "originating_id":
+            p = {"src": [a, va], "seq": [b, vb]}
+            mk = lambda: T.OriginatingTransactionId(TransactionId(fa, fb))  # noqa: E731
+        else:
+            p = {"dest_id": [a, va], "src": "x.bin", "dst": "y"}
+            mk = lambda: T.ProxyPutRequest(T.ProxyPutRequestParams(fa, X.CfdpLv.from_str("x.bin"), X.CfdpLv.from_str("y")))  # noqa: E731
+        want = R.reserved_message(MSG_TYPE[kind], ref_fields(kind, p))
+        ok, raw = attempt(lambda: bytes(mk().pack()))
+        if not ctx.check("msg.pack", ok and raw == want, "octets_when_field_objects_are_updated_in_place", kind, dict(case, round=rnd), trail=trail,
+                         expected=want, observed=raw if ok else repr(raw)):
+            return
+        ok, rm = attempt(lambda: X.MessageToUserTlv.unpack(raw).to_reserved_msg_tlv())
+        ok2, got = attempt(lambda: read_back(kind, getattr(rm, GETTER[kind])())) if ok else (False, rm)
+        if not ctx.check("msg.getters", ok2 and got == p, "parameters_differ", f"{kind}/field_reuse", dict(case, round=rnd), trail=trail, observed=repr(got), expected=p):
+            return
+
+
+KINDS = {"field_reuse": k_field_reuse, "msg": k_msg, "not_reserved": k_not_reserved}
 
 
 def rand_msg(r, kind):
@@ -292,6 +336,8 @@ def run(ctx):
     for _ in range(ctx.n(3000, 200_000)):
         kind = r.choice(KINDS9)
         k_msg(ctx, kind, rand_msg(r, kind))
+    for j in range(ctx.n(800, 60_000)):
+        k_field_reuse(ctx, ctx.seed * 1_000_003 + ctx.shard[0] * 100_003 + j)
     # negative clause
     alpha = (0x63, 0x66, 0x64, 0x70, 0x00, 0x80, 0xFF)
     maxlen = 6 if ctx.quick else 7
